@@ -224,59 +224,82 @@ type consumed struct {
 	deps  []string
 	// depDigests are the digests of the dependency keys, sorted
 	depDigests []string
+	// which parts were obtained without an error
+	haveFiles, haveDeps, haveYAML, haveLock bool
 	yaml  string
 	lock  string
 }
 
+// consume reads everything a ModuleData offers. Every accessor is tried on its own - an
+// error of one does not stop the others - because each accessor has to verify the digest
+// itself: whatever ANY accessor hands out without an error must be right. The returned
+// error is the first one seen (nil only if every accessor succeeded).
 func consume(ctx context.Context, md bufmodule.ModuleData) (*consumed, error) {
 	out := &consumed{files: map[string]string{}}
-	b, err := md.Bucket()
-	if err != nil {
-		return nil, err
-	}
-	var paths []string
-	if err := b.Walk(ctx, "", func(info storage.ObjectInfo) error {
-		paths = append(paths, info.Path())
-		return nil
-	}); err != nil {
-		return nil, err
-	}
-	for _, p := range paths {
-		data, err := storage.ReadPath(ctx, b, p)
-		if err != nil {
-			return nil, err
+	var firstErr error
+	note := func(err error) {
+		if firstErr == nil {
+			firstErr = err
 		}
-		out.files[p] = string(data)
 	}
-	deps, err := md.DepModuleKeys()
-	if err != nil {
-		return nil, err
-	}
-	for _, d := range deps {
-		out.deps = append(out.deps, d.String())
-		dd, err := d.Digest()
-		if err != nil {
-			return nil, err
+	if b, err := md.Bucket(); err != nil {
+		note(err)
+	} else {
+		var paths []string
+		if err := b.Walk(ctx, "", func(info storage.ObjectInfo) error {
+			paths = append(paths, info.Path())
+			return nil
+		}); err != nil {
+			note(err)
+		} else {
+			ok := true
+			for _, p := range paths {
+				data, err := storage.ReadPath(ctx, b, p)
+				if err != nil {
+					note(err)
+					ok = false
+					break
+				}
+				out.files[p] = string(data)
+			}
+			out.haveFiles = ok
 		}
-		out.depDigests = append(out.depDigests, dd.String())
 	}
-	sort.Strings(out.deps)
-	sort.Strings(out.depDigests)
-	y, err := md.V1Beta1OrV1BufYAMLObjectData()
-	if err != nil {
-		return nil, err
+	if deps, err := md.DepModuleKeys(); err != nil {
+		note(err)
+	} else {
+		ok := true
+		for _, d := range deps {
+			out.deps = append(out.deps, d.String())
+			dd, err := d.Digest()
+			if err != nil {
+				note(err)
+				ok = false
+				break
+			}
+			out.depDigests = append(out.depDigests, dd.String())
+		}
+		sort.Strings(out.deps)
+		sort.Strings(out.depDigests)
+		out.haveDeps = ok
 	}
-	if y != nil {
-		out.yaml = y.Name() + ":" + string(y.Data())
+	if y, err := md.V1Beta1OrV1BufYAMLObjectData(); err != nil {
+		note(err)
+	} else {
+		out.haveYAML = true
+		if y != nil {
+			out.yaml = y.Name() + ":" + string(y.Data())
+		}
 	}
-	l, err := md.V1Beta1OrV1BufLockObjectData()
-	if err != nil {
-		return nil, err
+	if l, err := md.V1Beta1OrV1BufLockObjectData(); err != nil {
+		note(err)
+	} else {
+		out.haveLock = true
+		if l != nil {
+			out.lock = l.Name() + ":" + string(l.Data())
+		}
 	}
-	if l != nil {
-		out.lock = l.Name() + ":" + string(l.Data())
-	}
-	return out, nil
+	return out, firstErr
 }
 
 // wrong compares consumed content with the reference; "" means equal.
@@ -288,44 +311,48 @@ func (m *csim) wrong(mod *modgen.Module, c *consumed) string {
 // covers is compared (file contents; for b5 the dependency DIGESTS; for b4 the v1 object
 // data) - names and commit ids of dependency keys are stored beside, not under, the digest.
 func (m *csim) wrongT(mod *modgen.Module, c *consumed, tainted bool) string {
-	for _, p := range simfs.SortedKeys(mod.ModuleFiles) {
-		got, ok := c.files[p]
-		if !ok {
-			return "file " + p + " missing"
-		}
-		if got != string(mod.ModuleFiles[p]) {
-			return fmt.Sprintf("file %s differs (%d bytes, reference %d)", p, len(got), len(mod.ModuleFiles[p]))
-		}
-	}
-	for _, p := range simfs.SortedKeys(c.files) {
-		if _, ok := mod.ModuleFiles[p]; !ok {
-			return "extra file " + p
-		}
-	}
-	if !tainted {
-		if strings.Join(c.deps, ",") != strings.Join(mod.DepKeys, ",") {
-			return fmt.Sprintf("dependency keys %v, reference %v", c.deps, mod.DepKeys)
-		}
-	} else if m.u.DigestType == bufmodule.DigestTypeB5 {
-		var want []string
-		for _, d := range m.u.Modules {
-			for _, k := range mod.DepKeys {
-				if d.Key.String() == k {
-					dd, _ := d.Key.Digest()
-					want = append(want, dd.String())
-				}
+	if c.haveFiles {
+		for _, p := range simfs.SortedKeys(mod.ModuleFiles) {
+			got, ok := c.files[p]
+			if !ok {
+				return "file " + p + " missing"
+			}
+			if got != string(mod.ModuleFiles[p]) {
+				return fmt.Sprintf("file %s differs (%d bytes, reference %d)", p, len(got), len(mod.ModuleFiles[p]))
 			}
 		}
-		sort.Strings(want)
-		if strings.Join(c.depDigests, ",") != strings.Join(want, ",") {
-			return fmt.Sprintf("dependency digests %v, reference %v", c.depDigests, want)
+		for _, p := range simfs.SortedKeys(c.files) {
+			if _, ok := mod.ModuleFiles[p]; !ok {
+				return "extra file " + p
+			}
+		}
+	}
+	if c.haveDeps {
+		if !tainted {
+			if strings.Join(c.deps, ",") != strings.Join(mod.DepKeys, ",") {
+				return fmt.Sprintf("dependency keys %v, reference %v", c.deps, mod.DepKeys)
+			}
+		} else if m.u.DigestType == bufmodule.DigestTypeB5 {
+			var want []string
+			for _, d := range m.u.Modules {
+				for _, k := range mod.DepKeys {
+					if d.Key.String() == k {
+						dd, _ := d.Key.Digest()
+						want = append(want, dd.String())
+					}
+				}
+			}
+			sort.Strings(want)
+			if strings.Join(c.depDigests, ",") != strings.Join(want, ",") {
+				return fmt.Sprintf("dependency digests %v, reference %v", c.depDigests, want)
+			}
 		}
 	}
 	if m.u.DigestType == bufmodule.DigestTypeB4 {
-		if c.yaml != "buf.yaml:"+string(mod.BufYAML) {
+		if c.haveYAML && c.yaml != "buf.yaml:"+string(mod.BufYAML) {
 			return "v1 buf.yaml object data differs"
 		}
-		if c.lock != "buf.lock:"+string(mod.BufLock) {
+		if c.haveLock && c.lock != "buf.lock:"+string(mod.BufLock) {
 			return "v1 buf.lock object data differs"
 		}
 	}
@@ -342,9 +369,13 @@ func (m *csim) checkDatas(ctx context.Context, who, site string, datas []bufmodu
 		}
 		idx := m.indexOf(mod)
 		c, err := consume(ctx, md)
+		if p := sched.ProcOf(ctx); p != nil && p.Dead {
+			return ok
+		}
 		if err != nil {
-			if p := sched.ProcOf(ctx); p != nil && p.Dead {
-				return ok
+			// some accessor failed: what the OTHER accessors handed out without error must still be right
+			if w := m.wrong(mod, c); w != "" {
+				m.violate("no-wrong-content", site+"|partial", "%s: an accessor of %s failed (%v) but another one served wrong content without error: %s", who, mod.Name, firstLine(err), w)
 			}
 			var mismatch *bufmodule.DigestMismatchError
 			if errors.As(err, &mismatch) {
@@ -362,6 +393,10 @@ func (m *csim) checkDatas(ctx context.Context, who, site string, datas []bufmodu
 		ok = append(ok, idx)
 	}
 	return ok
+}
+
+func firstLine(err error) string {
+	return strings.SplitN(err.Error(), "\n", 2)[0]
 }
 
 func (m *csim) indexOf(mod *modgen.Module) int {
@@ -420,10 +455,9 @@ func (m *csim) recover(root, when, site string) {
 		idx := m.indexOf(mod)
 		c, err := consume(ctx, md)
 		if m.tainted[idx] {
-			if err == nil {
-				if w := m.wrong(mod, c); w != "" {
-					m.violate("no-wrong-content", site, "%s: tampered entry %s served wrong content without error: %s", when, mod.Name, w)
-				}
+			// every accessor that succeeds on a tampered entry must still serve what the digest pins
+			if w := m.wrong(mod, c); w != "" {
+				m.violate("no-wrong-content", site, "%s: tampered entry %s served wrong content without error: %s", when, mod.Name, w)
 			}
 			continue
 		}
@@ -744,6 +778,35 @@ func (m *csim) entryPath(mod *modgen.Module) string {
 	return p
 }
 
+// flipDepDigest changes one hex digit of a dependency digest recorded in a marker (in place).
+func flipDepDigest(tp *tape.Tape, data []byte) bool {
+	var at []int
+	for _, needle := range []string{"digest: b5:", "digest: shake256:"} {
+		for i := 0; ; {
+			j := strings.Index(string(data[i:]), needle)
+			if j < 0 {
+				break
+			}
+			at = append(at, i+j+len(needle))
+			i += j + len(needle)
+		}
+	}
+	if len(at) == 0 {
+		return false
+	}
+	sort.Ints(at)
+	p := at[tp.Draw("tdep", len(at))] + tp.Draw("tdepoff", 64)
+	if p >= len(data) {
+		return false
+	}
+	if data[p] == '0' {
+		data[p] = '1'
+	} else {
+		data[p] = '0'
+	}
+	return true
+}
+
 // retaint decides, for every module touched by tampering, whether it is exempt from the
 // repair oracles: an entry that is STILL reported as found (its marker survived) may stay
 // unusable for ever - readers get a digest mismatch; an entry that is no longer found must
@@ -849,7 +912,13 @@ func (m *csim) tamper() {
 		if err != nil || len(data) == 0 {
 			return
 		}
-		switch m.tp.Draw("ttar", 3) {
+		switch m.tp.Draw("ttar", 4) {
+		case 3:
+			if flipDepDigest(m.tp, data) {
+				_ = os.WriteFile(entry, data, 0o644)
+				m.tainted[idx] = true
+				m.s.Fired("tamper-dep-digest")
+			}
 		case 0:
 			pos := m.tp.Draw("tpos", len(data))
 			data[pos] ^= byte(1 + m.tp.Draw("tbit", 255))
@@ -879,9 +948,29 @@ func (m *csim) tamper() {
 			files = append(files, k)
 		}
 	}
-	kind := m.tp.Draw("tkind", 8)
+	kind := m.tp.Draw("tkind", 10)
 	m.s.Event("tamper kind %d on module %d", kind, idx)
 	switch {
+	case kind == 8:
+		// the marker stays valid but pins another dependency digest
+		f := filepath.Join(entry, "module.yaml")
+		data, err := os.ReadFile(f)
+		if err == nil && flipDepDigest(m.tp, data) {
+			_ = os.WriteFile(f, data, 0o644)
+			m.tainted[idx] = true
+			m.s.Fired("tamper-dep-digest")
+		}
+	case kind == 9:
+		// one flipped byte somewhere in the marker
+		f := filepath.Join(entry, "module.yaml")
+		data, err := os.ReadFile(f)
+		if err == nil && len(data) > 0 {
+			pos := m.tp.Draw("tpos", len(data))
+			data[pos] ^= byte(1 + m.tp.Draw("tbit", 255))
+			_ = os.WriteFile(f, data, 0o644)
+			m.tainted[idx] = true
+			m.s.Fired("tamper-marker-flip")
+		}
 	case kind == 0:
 		_ = os.RemoveAll(entry)
 		m.s.Fired("tamper-delete-entry")
